@@ -299,6 +299,24 @@ where
     }
 }
 
+/// Forwarder to the private constructor, for verification harnesses only.
+#[cfg(brood_verif)]
+impl<R> Allocator<R>
+where
+    R: Registry,
+{
+    pub(crate) fn verif_from_serialized_parts<E>(
+        length: usize,
+        free: Vec<entity::Identifier>,
+        archetypes: &Archetypes<R>,
+    ) -> Result<Self, E>
+    where
+        E: de::Error,
+    {
+        Self::from_serialized_parts(length, free, archetypes, PhantomData)
+    }
+}
+
 #[cfg(test)]
 mod tests {
     use super::{
